@@ -87,6 +87,48 @@ def locate(src, qualname, nparams=None):
     return found[0]
 
 
+def preprocess(body, defines, notes):
+    """#ifdef M / #ifndef M / #else / #endif for the macros named in `defines` (M -> is it defined): the inactive branch is blanked
+    (line numbers kept); conditionals on other macros are left for the caller (accepted only when they enclose no code)"""
+    if not defines: return body
+    out, stack = [], []            # stack of (known?, active?)
+    for line in body.split('\n'):
+        m = re.match(r'^[ \t]*#[ \t]*(ifdef|ifndef|else|endif)\b[ \t]*(\w*)', line)
+        if m:
+            d, name = m.group(1), m.group(2)
+            if d in ('ifdef', 'ifndef'):
+                if name in defines:
+                    stack.append((True, defines[name] == (d == 'ifdef')))
+                    notes.append('preprocessor: %s is %sdefined' % (name, '' if defines[name] else 'not '))
+                    out.append(''); continue
+                stack.append((False, True))
+            elif d == 'else' and stack and stack[-1][0]:
+                stack[-1] = (True, not stack[-1][1]); out.append(''); continue
+            elif d == 'endif' and stack:
+                known, _ = stack.pop()
+                if known:
+                    out.append(''); continue
+        out.append(line if all(a for _, a in stack) else '')
+    return '\n'.join(out)
+
+
+def c_unescape(lit):
+    """bytes of a C string / character literal (without the quotes)"""
+    esc = {'n': 10, 't': 9, 'r': 13, '0': 0, '\\': 92, "'": 39, '"': 34, 'v': 11, 'a': 7, 'b': 8, 'f': 12}
+    out, i = [], 0
+    while i < len(lit):
+        c = lit[i]
+        if c == '\\':
+            i += 1
+            if i >= len(lit) or lit[i] not in esc: raise Unsupported('escape sequence in literal ' + lit)
+            out.append(esc[lit[i]])
+        else:
+            b = c.encode('utf-8')
+            out.extend(b)
+        i += 1
+    return out
+
+
 def split_top(text):
     parts, depth, cur = [], 0, ''
     for c in text:
@@ -122,9 +164,11 @@ TOKEN_RE = re.compile(r'''
  | (?P<op><<=|>>=|\.\.\.|::|->|<<|>>|<=|>=|==|!=|&&|\|\||\+\+|--|\+=|-=|\*=|/=|%=|&=|\|=|\^=|[-+*/%<>=!&|^~?:;,.(){}\[\]])
 ''', re.X)
 
-KEYWORDS_BAD = {'delete', 'new', 'throw', 'try', 'catch', 'do', 'goto', 'using', 'typedef', 'static', 'struct', 'class',
+KEYWORDS_BAD = {'delete', 'throw', 'try', 'catch', 'do', 'goto', 'using', 'typedef', 'static', 'struct', 'class',
                 'co_await', 'co_return', 'asm'}
 BUILTIN = {'unsigned', 'signed', 'long', 'int', 'short', 'char', 'bool', 'double', 'float', 'void'}
+CCAST_TYPES = {'unsigned', 'signed', 'long', 'int', 'short', 'bool', 'double', 'uint_fast8_t', 'uint8_t', 'size_t'}
+SMALLINT = ('uint_fast8_t', 'uint8_t')        # values are enum constants 0..3 here: no wrap-around (assumption, noted)
 
 
 def lex(text):
@@ -271,7 +315,22 @@ class Parser:
             self.next(); self.expect('(')
             pre = None
             save = self.p
-            d = self.try_decl()            # C++17 `if (init; cond)`
+            ty = self.try_type()           # `if (T x = e)`: declaration as condition, the condition is x
+            if ty is not None and self.peek()[0] == 'id' and self.at('=', 1):
+                name = self.next()[1]; self.next(); e0 = self.expr()
+                if self.at(')'):
+                    self.next()
+                    a = self.sub()
+                    b = []
+                    if self.at('else'):
+                        self.next(); b = self.sub()
+                    return ('block', [('decl', ty, name, e0), ('if', ('id', name), a, b)])
+            self.p = save
+            d = None
+            try:
+                d = self.try_decl()        # C++17 `if (init; cond)`
+            except Unsupported:
+                self.p = save
             if d is not None:
                 pre = d
             else:
@@ -321,6 +380,15 @@ class Parser:
             e = self.expr(); self.expect(';'); return ('return', e)
         if k == 'id' and v in ('break', 'continue'):
             self.next(); self.expect(';'); return (v,)
+        if k == 'id' and v == 'auto' and self.at('[', 1):            # C++17 structured binding: auto [a, b] = e;
+            self.next(); self.next(); names = []
+            while True:
+                if self.peek()[0] != 'id': raise Unsupported('structured binding')
+                names.append(self.next()[1])
+                if self.at(','): self.next(); continue
+                break
+            self.expect(']'); self.expect('='); e = self.expr(); self.expect(';')
+            return ('sbind', names, e)
         d = self.try_decl()
         if d is not None:
             return d
@@ -385,11 +453,35 @@ class Parser:
             if v == 'false': return ('bool', False)
             if v == 'nullptr' or v == 'NULL': return ('null',)
             if v == 'this': return ('this',)
+            if v == 'new':                       # `new T(args)`: an opaque value (can only initialise a symbolic local)
+                ty = self.try_type()
+                if ty is None: raise Unsupported('new expression')
+                args = []
+                if self.at('('):
+                    self.next()
+                    if not self.at(')'):
+                        args.append(self.assign())
+                        while self.at(','):
+                            self.next(); args.append(self.assign())
+                    self.expect(')')
+                return ('new', ty, args)
             name = v
             while self.at('::') and self.peek(1)[0] == 'id':
                 self.next(); name += '::' + self.next()[1]
+            if '::' in name and self.at('<'):               # call of a function template: ConfigType::GetObjectsByType<T>()
+                save = self.p
+                if self.skip_angles() and self.at('('):
+                    name += '<>'
+                else:
+                    self.p = save
             return ('id', name)
         if k == 'op' and v == '(':
+            # C-style cast to an arithmetic type:  (uint_fast8_t)e  ==  static_cast<uint_fast8_t>(e)
+            j = 0
+            while self.peek(j)[0] == 'id' and self.peek(j)[1] in CCAST_TYPES: j += 1
+            if j and self.at(')', j) and (self.peek(j + 1)[0] in ('id', 'num') or self.at('(', j + 1)):
+                ty = ' '.join(self.next()[1] for _ in range(j)); self.next()
+                return ('cast', 'static_cast', ty, self.unary())
             e = self.expr(); self.expect(')'); return ('paren', e)
         if k == 'op' and v == '{':
             items = []
@@ -400,8 +492,28 @@ class Parser:
             self.expect('}')
             return ('initlist', items)
         if k == 'op' and v == '[':
-            raise Unsupported('lambda expression')
+            return self.lambda_()
         raise Unsupported('unexpected token %r' % v)
+
+    def lambda_(self):
+        """after '[': capture list, optional parameter list / specifiers, brace-matched body.  The body is NOT translated:
+        a lambda is an opaque value ('lambda', n) that can only initialise a symbolic local (whose uses must be bound)"""
+        def balanced(op, cl):
+            depth = 1
+            while depth:
+                k, v = self.next()
+                if k == 'eof': raise Unsupported('unterminated lambda expression')
+                if k == 'op' and v == op: depth += 1
+                elif k == 'op' and v == cl: depth -= 1
+        balanced('[', ']')
+        if self.at('('):
+            self.next(); balanced('(', ')')
+        while not self.at('{'):
+            k, v = self.next()
+            if k == 'eof' or v in (';', ')', ','): raise Unsupported('lambda expression without a body')
+        self.next(); balanced('{', '}')
+        self.nlambda = getattr(self, 'nlambda', 0) + 1
+        return ('lambda', self.nlambda)
 
     def postfix(self, e):
         while True:
@@ -468,6 +580,8 @@ def key(e, env):
     if k == 'assign': return key(e[2], env) + e[1] + key(e[3], env)
     if k == 'initlist': return '{' + ','.join(key(a, env) for a in e[1]) + '}'
     if k == 'ctor': return '(' + ','.join(key(a, env) for a in e[1]) + ')'
+    if k == 'lambda': return '[lambda%d]' % e[1]
+    if k == 'new': return '[new %s]' % e[1]
     raise Unsupported('expression kind ' + k)
 
 
@@ -511,7 +625,7 @@ def P(t):
 
 
 DEFAULTS = {'bool': 'false', 'Z': '0', 'u64': '0'}
-COQTYPE = {'bool': 'bool', 'Z': 'Z', 'u64': 'Z', 'ptr': 'bool'}
+COQTYPE = {'bool': 'bool', 'Z': 'Z', 'u64': 'Z', 'ptr': 'bool', 'Q': 'Q'}
 PLACEHOLDER = '\x00K%d\x00'
 SIZE_CAP = 20000
 
@@ -532,6 +646,15 @@ class Tr:
         self.getters = dict(t.get('getters', {}))    # 'GetTriggerTime()' -> state variable
         self.ctypes = dict(t.get('ctypes', {}))      # C++ type name -> custom value type
         self.intdiv = bool(t.get('intdiv'))
+        self.symtypes = set(t.get('symbolic_types', []))   # declared types whose locals always stay symbolic
+        # calls that READ AND WRITE state variables (explicit state passing):  key -> dict(term='f {$a} {$b} {0}', updates=['$a','$b'],
+        # ret=type|None, args=[types]).  key = full call text for value calls ('GetAcknowledgement()'), callee for statements.
+        self.calls_st = dict(t.get('calls_st', {}))
+        self.real = bool(t.get('real'))               # True: C++ double = exact rational arithmetic in Q (no rounding: an assumption, noted)
+        self.strtypes = t.get('strings')              # dict(string='bytes', char='byte', lit='%d%%N'): byte strings as lists, + is concatenation
+        self.dict_shape = t.get('dict_shape')         # ('seg', ['begin', 'end']): new Dictionary({{"begin", x}, {"end", y}}) is the value (x, y) of type seg
+        self.assigns = dict(t.get('assigns', {}))     # key of an lvalue (e.g. '[new MessageOrigin]->FromZone') -> state variable
+        self.appends = dict(t.get('appends', {}))     # 'v.push_back' -> list-typed local v :  v := v ++ [argument]
         self.emits = dict(t.get('emits', {}))        # call key (regex) -> (event list state variable, event term)
         self.fuel = t.get('fuel')                    # gallina nat term bounding every while loop
         self.opaque_ok = t.get('opaque', True)
@@ -569,6 +692,7 @@ class Tr:
         if want == 'Z' and ty == 'u64': return term
         if want == 'u64' and ty == 'Z': return 'xl_u64 %s' % P(term)
         if want in ('Z', 'u64') and ty == 'bool': return 'if %s then 1 else 0' % term
+        if want == 'Q' and ty == 'Z': return 'inject_Z %s' % P(term)
         raise Unsupported('no conversion from %s to %s (%s)' % (ty, want, term))
 
     # ---- expressions
@@ -589,11 +713,22 @@ class Tr:
                 v = int(t, 0)
             except ValueError:
                 f = float(t)
-                if f != int(f): raise Unsupported('non-integral literal ' + e[1])
+                if f != int(f):
+                    if not self.real: raise Unsupported('non-integral literal ' + e[1])
+                    from fractions import Fraction
+                    fr = Fraction(t)
+                    return ('(Qmake %d %d%%positive)' % (fr.numerator, fr.denominator), 'Q')
                 v = int(f)
             return (str(v), 'Z')
         if kind == 'bool':
             return ('true' if e[1] else 'false', 'bool')
+        if kind == 'str' and self.strtypes:
+            bs = c_unescape(e[1][1:-1])
+            return ('[' + '; '.join(self.strtypes['lit'] % b for b in bs) + ']', self.strtypes['string'])
+        if kind == 'chr' and self.strtypes:
+            bs = c_unescape(e[1][1:-1])
+            if len(bs) != 1: raise Unsupported('character literal ' + e[1])
+            return (self.strtypes['lit'] % bs[0], self.strtypes['char'])
         if kind == 'id':
             if e[1] in env.vals:
                 g, t, _ = env.vals[e[1]]
@@ -617,7 +752,7 @@ class Tr:
             if fk in self.fns:
                 head, ats, rt = self.fns[fk]
                 if len(ats) != len(e[2]): raise Unsupported('arity of ' + fk)
-                args = [self.coerce(self.tx(a, env), at) for a, at in zip(e[2], ats)]
+                args = [self.coerce(self.tx(a, env), at) for a, at in zip(e[2], ats) if at is not None]   # None: argument not passed on (an object the callee's own inputs stand for)
                 return ((head + ' ' + ' '.join(P(a) for a in args)).strip(), rt)
             raise Unsupported('unbound call ' + k)
         if kind == 'un':
@@ -626,6 +761,7 @@ class Tr:
             a = self.tx(e[2], env)
             if op == '-' and a[1] == 'Z': return ('- %s' % P(a[0]), 'Z')
             if op == '+' and a[1] in ('Z', 'u64'): return a
+            if op == '~' and a[1] == 'Z': return ('Z.lnot %s' % P(a[0]), 'Z')      # two's complement, as for C++ int
             raise Unsupported('unary %s on %s' % (op, a[1]))
         if kind == 'bin':
             return self.tbin(e[1], e[2], e[3], env)
@@ -635,13 +771,30 @@ class Tr:
             ty = a[1] if a[1] == b[1] else ('u64' if {a[1], b[1]} == {'Z', 'u64'} else None)
             if ty is None: raise Unsupported('ternary branches of types %s / %s' % (a[1], b[1]))
             return ('if %s then %s else %s' % (c, self.coerce(a, ty), self.coerce(b, ty)), ty)
+        if kind == 'new' and self.dict_shape and e[1] == 'Dictionary' and len(e[2]) == 1 and unparen(e[2][0])[0] == 'initlist':
+            tyname, keys = self.dict_shape
+            items = {}
+            for it in unparen(e[2][0])[1]:
+                it = unparen(it)
+                if it[0] != 'initlist' or len(it[1]) != 2 or unparen(it[1][0])[0] != 'str': raise Unsupported('dictionary literal')
+                items[unparen(it[1][0])[1].strip('"')] = self.coerce(self.tx(it[1][1], env), 'Z')
+            if sorted(items) != sorted(keys): raise Unsupported('dictionary literal with keys ' + ','.join(sorted(items)))
+            return ('(' + ', '.join(items[k_] for k_ in keys) + ')', tyname)
+        if kind == 'index':
+            a = self.tx(e[1], env)
+            td = self.types.get(a[1], {})
+            if td.get('elem') and td.get('default') is not None:
+                i = self.coerce(self.tx(e[2], env), 'Z')
+                self.notes.append('v[i] on a vector is nth (Z.to_nat i) v <default>: exact for 0 <= i < size, anything else is undefined behaviour in C++')
+                return ('nth (Z.to_nat %s) %s %s' % (P(i), P(a[0]), P(td['default'])), td['elem'])
+            raise Unsupported('index into ' + a[1])
         if kind == 'cast':
             a = self.tx(e[3], env)
             ty = e[2]
             if e[1] == 'static_cast':
                 if ty == 'bool': return (self.coerce(a, 'bool'), 'bool')
                 if ty in ('unsigned long', 'size_t', 'unsigned long long', 'uint64_t'): return (self.coerce(a, 'u64'), 'u64')
-                if a[1] == 'Z' and (ty in self.cast_ok or ty in ('int', 'long', 'double', 'long long')):
+                if a[1] == 'Z' and (ty in self.cast_ok or ty in ('int', 'long', 'double', 'long long') + SMALLINT):
                     self.notes.append('static_cast<%s> of an integer/enum value is the identity on Z' % ty)
                     return a
             raise Unsupported('cast %s<%s>' % (e[1], ty))
@@ -654,6 +807,14 @@ class Tr:
             a = self.coerce(self.tx(ea, env), 'bool'); b = self.coerce(self.tx(eb, env), 'bool')
             return ('%s %s %s' % (P(a), op, P(b)), 'bool')
         a, b = self.tx(ea, env), self.tx(eb, env)
+        if 'Q' in (a[1], b[1]) and a[1] in ('Q', 'Z') and b[1] in ('Q', 'Z'):
+            x, y = P(self.coerce(a, 'Q')), P(self.coerce(b, 'Q'))
+            if op in ('+', '-', '*', '/'):
+                return ('%s %s %s' % ({'+': 'Qplus', '-': 'Qminus', '*': 'Qmult', '/': 'Qdiv'}[op], x, y), 'Q')
+            cmpq = {'<=': 'Qle_bool %s %s' % (x, y), '>=': 'Qle_bool %s %s' % (y, x), '<': 'negb (Qle_bool %s %s)' % (y, x),
+                    '>': 'negb (Qle_bool %s %s)' % (x, y), '==': 'Qeq_bool %s %s' % (x, y), '!=': 'negb (Qeq_bool %s %s)' % (x, y)}
+            if op in cmpq: return (cmpq[op], 'bool')
+            raise Unsupported('operator %s on rationals' % op)
         num = lambda t: t in ('Z', 'u64')
         if op in ('<', '<=', '>', '>='):
             if not (num(a[1]) and num(b[1])): raise Unsupported('comparison of %s and %s' % (a[1], b[1]))
@@ -666,6 +827,8 @@ class Tr:
                 t = '%s %s %s' % (self.types[a[1]]['eqb'], P(a[0]), P(b[0]))
             else: raise Unsupported('equality of %s and %s' % (a[1], b[1]))
             return (t if op == '==' else 'negb %s' % P(t), 'bool')
+        if op == '+' and self.strtypes and a[1] == self.strtypes['string'] and b[1] in (self.strtypes['string'], self.strtypes['char']):
+            return ('%s ++ %s' % (P(a[0]), P(b[0]) if b[1] == a[1] else '[%s]' % b[0]), a[1])
         if op in ('+', '-', '*'):
             if not (num(a[1]) and num(b[1])): raise Unsupported('arithmetic on %s and %s' % (a[1], b[1]))
             t = '%s %s %s' % (P(a[0]), op, P(b[0]))
@@ -681,6 +844,9 @@ class Tr:
             if num(a[1]) and eb[0] == 'num' and 0 <= int(eb[1]) < 64:
                 t = '%s * %d' % (P(a[0]), 2 ** int(eb[1]))
                 return ('xl_u64 %s' % P(t), 'u64') if a[1] == 'u64' else (t, 'Z')
+        if op == '%' and 'u64' in (a[1], b[1]) and num(a[1]) and num(b[1]):
+            self.notes.append('unsigned %: Z.modulo on non-negative values (the divisor is assumed non-zero, as C++ requires)')
+            return ('%s mod %s' % (P(self.coerce(a, 'u64')), P(self.coerce(b, 'u64'))), 'u64')
         if op in ('/', '%'):
             if a[1] == b[1] == 'Z' and self.intdiv:
                 return ('%s %s %s' % ('Z.quot' if op == '/' else 'Z.rem', P(a[0]), P(b[0])), 'Z')
@@ -694,7 +860,8 @@ class Tr:
         if ty in self.ctypes: return self.ctypes[ty]
         if ty == 'bool': return 'bool'
         if ty in ('unsigned long', 'size_t', 'unsigned long long', 'uint64_t'): return 'u64'
-        if ty in ('int', 'long', 'short', 'long long', 'double', 'float', 'unsigned int', 'unsigned') or ty in self.cast_ok: return 'Z'
+        if self.real and ty in ('double', 'float'): return 'Q'
+        if ty in ('int', 'long', 'short', 'long long', 'double', 'float', 'unsigned int', 'unsigned') + SMALLINT or ty in self.cast_ok: return 'Z'
         return None
 
     ctypes = {}
@@ -720,24 +887,60 @@ class Tr:
         e = unparen(e)
         if e[0] == 'assign':
             l = unparen(e[2])
-            return l[1] if l[0] == 'id' else None
+            if l[0] != 'id':
+                try:
+                    return self.assigns.get(key(l, env))
+                except Unsupported:
+                    return None
+            return l[1]
         if e[0] == 'call':
             fk = key(e[1], None)
-            if fk in self.setters: return self.setters[fk]
+            if self.setter_of(e): return self.setter_of(e)[0]
             if fk in self.emits: return self.emits[fk][0]
+            if fk in self.appends: return self.appends[fk]
         return None
+
+    def setter_of(self, e):
+        """(state variable, value expression) of a call that is a bound setter, else None; `obj->Set("key", v)` is looked up as 'obj->Set("key")'"""
+        fk = key(e[1], None)
+        if fk in self.setters and len(e[2]) == 1: return self.setters[fk], e[2][0]
+        if len(e[2]) == 2 and unparen(e[2][0])[0] == 'str':
+            fk2 = '%s(%s)' % (fk, unparen(e[2][0])[1])
+            if fk2 in self.setters: return self.setters[fk2], e[2][1]
+        return None
+
+    def targets_of(self, e, env):
+        e = unparen(e)
+        if e[0] == 'call' and key(e[1], None) in self.calls_st:
+            return list(self.calls_st[key(e[1], None)]['updates'])
+        t = self.target_of(e, env)
+        return [t] if t else []
 
     def assigned(self, stmts, env):
         """value variables of env assigned somewhere in stmts (symbolic locals do not count)"""
         acc, declared = set(), set()
+        def calls_in(x):
+            if not isinstance(x, tuple): return
+            if x[0] == 'call':
+                try:
+                    sp = self.calls_st.get(key(x, env))
+                except Unsupported:
+                    sp = None
+                if sp and sp.get('ret'): acc.update(sp['updates'])
+            for y in x:
+                if isinstance(y, tuple): calls_in(y)
+                elif isinstance(y, list):
+                    for z in y: calls_in(z)
         def walk(ss):
             for s in ss:
                 k = s[0]
+                if self.calls_st and k in self.HEAD and s[self.HEAD[k]] is not None and not self.is_skip(s, env):
+                    calls_in(s[self.HEAD[k]])
                 if k == 'decl': declared.add(s[2])
+                elif k == 'sbind': declared.update(s[1])
                 elif k == 'expr':
                     if self.is_skip(s, env): continue
-                    t = self.target_of(s[1], env)
-                    if t: acc.add(t)
+                    acc.update(self.targets_of(s[1], env))
                 elif k == 'if': walk(s[2]); walk(s[3])
                 elif k == 'block': walk(s[1])
                 elif k == 'switch':
@@ -804,11 +1007,69 @@ class Tr:
         kname = self.fresh('xl_k')
         return 'let %s := %s in\n%s' % (kname, r, body.replace(ph, kname))
 
+    # ---- calls with an effect on the state variables inside an expression: hoisted in front of the statement
+    HEAD = {'expr': 1, 'decl': 3, 'if': 1, 'return': 1, 'switch': 1, 'while': 1}
+
+    def st_term(self, spec, env, args=()):
+        t = re.sub(r'\{(\$\w+)\}', lambda m: env.vals[m.group(1)][0], spec['term'])
+        return t.format(*[P(a) for a in args]) if args else t
+
+    def st_bind(self, spec, env, value_name=None):
+        """fresh names for the state variables the call updates -> (let-pattern, new env)"""
+        e2, gs = env.copy(), []
+        if value_name: gs.append(value_name)
+        for n in spec['updates']:
+            g = self.fresh(n.lstrip('$')); gs.append(g)
+            e2.vals[n] = (g, env.vals[n][1], env.vals[n][2])
+        return (gs[0] if len(gs) == 1 else "'(" + ', '.join(gs) + ')'), e2
+
+    def hoist(self, s, env):
+        """value calls listed in calls_st that occur in the head expression of s: executed ONCE, in front of the statement, in
+        evaluation order; every occurrence reads the value of that one execution.  Exact when (1) the first occurrence is
+        evaluated unconditionally (checked here: not under the right operand of && || or a ?: branch) and (2) a repeated call
+        returns the same value and changes nothing (idempotence: an obligation of the binding, proved in coq/Src)."""
+        idx = self.HEAD.get(s[0])
+        if idx is None or s[idx] is None or not any(sp.get('ret') for sp in self.calls_st.values()): return '', env, s
+        order, seen = [], {}
+        def walk(x, cond):
+            if not isinstance(x, tuple): return x
+            if x[0] == 'call':
+                kk = key(x, env)
+                sp = self.calls_st.get(kk)
+                if sp and sp.get('ret'):
+                    if kk not in seen:
+                        if cond: raise Unsupported('call %s changes the state and is evaluated only conditionally' % kk)
+                        seen[kk] = '$xl_call%d' % (len(seen) + 1 + self.nid * 100); order.append(kk)
+                    return ('id', seen[kk])
+                return ('call', walk(x[1], cond), [walk(a, cond) for a in x[2]])
+            if x[0] == 'bin' and x[1] in ('&&', '||'):
+                return ('bin', x[1], walk(x[2], cond), walk(x[3], True))
+            if x[0] == 'cond':
+                return ('cond', walk(x[1], cond), walk(x[2], True), walk(x[3], True))
+            return tuple(walk(y, cond) if isinstance(y, tuple) else ([walk(z, cond) for z in y] if isinstance(y, list) else y) for y in x)
+        e2 = walk(s[idx], False)
+        if not order: return '', env, s
+        if s[0] == 'while': raise Unsupported('state-changing call in a loop condition')
+        pre = ''
+        for kk in order:
+            sp = self.calls_st[kk]
+            v = self.fresh('xl_v')
+            term = self.st_term(sp, env)
+            pat, env = self.st_bind(sp, env, v)
+            env.vals[seen[kk]] = (v, sp['ret'], self.declid())
+            pre += 'let %s := %s in\n' % (pat, term)
+            self.notes.append('%s is executed once per statement (state passed explicitly); repeated reads in the statement see that value' % kk)
+        return pre, env, s[:idx] + (e2,) + s[idx + 1:]
+
     # ---- statements
     def ts(self, stmts, env, ctx):
         if not stmts:
             return ctx.fall(env)
         s, rest = stmts[0], stmts[1:]
+        if self.calls_st and not self.is_skip(s, env):
+            pre, env, s = self.hoist(s, env)
+            if pre:
+                return pre + self.ts([s] + rest, env, ctx)
         k = s[0]
         R = lambda e2: self.check(self.ts(rest, e2, ctx))
         if k == 'empty':
@@ -828,6 +1089,14 @@ class Tr:
             return ctx.cont(env)
         if k == 'decl':
             return self.t_decl(s, R, env)
+        if k == 'sbind':
+            sk = 'auto[' + ','.join(s[1]) + ']=' + key(s[2], env)
+            if sk not in self.stmts: raise Unsupported('statement ' + sk[:60])
+            e2 = env.copy()
+            for n, kk in self.stmts[sk].items():
+                e2.alias[n] = kk; e2.vals.pop(n, None)
+            self.symbolic.append(sk[:60])
+            return R(e2)
         if k == 'expr':
             return self.t_expr(s, R, env, ctx)
         if k == 'if':
@@ -856,6 +1125,8 @@ class Tr:
         vt = self.valtype(ty)
         e2 = env.copy()
         if init is None:
+            if vt and self.types.get(vt, {}).get('elem'):
+                return self.let(name, vt, '(@nil %s)' % P(self.coqtype(self.types[vt]['elem'])), env, R, self.declid())
             if vt:
                 e2.vals[name] = (None, vt, self.declid()); e2.alias.pop(name, None)
             else:
@@ -868,6 +1139,8 @@ class Tr:
         except Unsupported:
             if vt is not None or not self.opaque_ok: raise
             tt = None
+        if vt is None and re.sub(r'\s*[&*]+$', '', ty).strip() in self.symtypes:
+            tt = None        # e.g. icinga::Value: kept symbolic, so that `v != Empty` and `v` can be bound separately
         if tt is not None and tt[1] != 'ptr':
             want = vt or tt[1]
             return self.let(name, want, self.coerce(tt, want), env, R, self.declid())
@@ -882,6 +1155,16 @@ class Tr:
         e = unparen(s[1])
         if self.is_abort(s, env):
             if self.abort_val is None: raise Unsupported('path ends in ' + key(e, env)[:30] + ' and the target names no abort value')
+            if isinstance(self.abort_val, dict):          # {regex over the statement text: value}: which abort is it?
+                txt = key(e, env)
+                hits = [v for r, v in self.abort_val.items() if re.search(r, txt)]
+                if len(hits) != 1: raise Unsupported('abort statement %s matches %d of the declared abort values' % (txt[:40], len(hits)))
+                self.notes.append('a path ending in %s yields %s' % (txt[:60], hits[0]))
+                saved, self.abort_val = self.abort_val, hits[0]
+                try:
+                    return ctx.abort(env)
+                finally:
+                    self.abort_val = saved
             self.notes.append('a path ending in %s yields %s' % (key(e, env)[:30], self.abort_val))
             return ctx.abort(env)
         sk = key(e, env)
@@ -893,7 +1176,10 @@ class Tr:
             return R(e2)
         if e[0] == 'assign':
             lhs = unparen(e[2])
-            if lhs[0] != 'id': raise Unsupported('assignment to ' + key(lhs, env))
+            if lhs[0] != 'id':
+                n = self.assigns.get(key(lhs, env))
+                if n is None or e[1] != '=': raise Unsupported('assignment to ' + key(lhs, env))
+                return self.let(n, env.vals[n][1], self.coerce(self.tx(e[3], env), env.vals[n][1]), env, R)
             n = lhs[1]
             rhs = e[3] if e[1] == '=' else ('bin', e[1][:-1], lhs, e[3])
             if n in env.vals:
@@ -906,13 +1192,29 @@ class Tr:
             raise Unsupported('assignment to unknown variable ' + n)
         if e[0] == 'call':
             fk = key(e[1], None)
-            if fk in self.setters and len(e[2]) == 1:
-                n = self.setters[fk]
-                return self.let(n, env.vals[n][1], self.coerce(self.tx(e[2][0], env), env.vals[n][1]), env, R)
+            if self.setter_of(e):
+                n, ve = self.setter_of(e)
+                return self.let(n, env.vals[n][1], self.coerce(self.tx(ve, env), env.vals[n][1]), env, R)
+            if fk in self.appends and len(e[2]) == 1:
+                n = self.appends[fk]
+                if n not in env.vals or env.vals[n][0] is None: raise Unsupported('append to an unknown or uninitialised list ' + n)
+                lt = env.vals[n][1]
+                et = self.types.get(lt, {}).get('elem')
+                if not et: raise Unsupported('append to %s, which is not of a list type' % n)
+                return self.let(n, lt, '%s ++ [%s]' % (P(env.vals[n][0]), self.coerce(self.tx(e[2][0], env), et)), env, R)
+            if fk in self.calls_st and not self.calls_st[fk].get('ret'):
+                sp = self.calls_st[fk]
+                ats = sp.get('args', [])
+                if len(ats) != len(e[2]): raise Unsupported('arity of ' + fk)
+                args = [self.coerce(self.tx(a, env), at) for a, at in zip(e[2], ats) if at is not None]
+                term = self.st_term(sp, env, args)
+                pat, e2 = self.st_bind(sp, env)
+                return 'let %s := %s in\n%s' % (pat, term, R(e2))
             if fk in self.emits:
                 n, tmpl, ats = self.emits[fk]
                 args = [self.coerce(self.tx(a, env), at) if at else '' for a, at in zip(e[2], ats)]
                 if len(ats) != len(e[2]): raise Unsupported('arity of ' + fk)
+                tmpl = re.sub(r'\{(\$\w+)\}', lambda m: env.vals[m.group(1)][0], tmpl)
                 return self.let(n, env.vals[n][1], '%s ++ [%s]' % (env.vals[n][0], tmpl.format(*[P(a) for a in args])), env, R)
         raise Unsupported('statement ' + sk[:60])
 
@@ -938,10 +1240,10 @@ class Tr:
     def t_switch(self, s, R, env, ctx):
         sc = self.tx(s[1], env)
         if sc[1] not in ('Z', 'u64'): raise Unsupported('switch over ' + sc[1])
-        groups = s[2]
-        for i, (labels, body) in enumerate(groups):
-            if i < len(groups) - 1 and not self.always_jumps(body, env):
-                raise Unsupported('switch group falls through into the next one')
+        groups = list(s[2])
+        for i in range(len(groups) - 2, -1, -1):          # a group that does not end in a jump runs on into the next group
+            if not self.always_jumps(groups[i][1], env):
+                groups[i] = (groups[i][0], groups[i][1] + groups[i + 1][1])
         names = self.assigned([x for _, b in groups for x in b], env)
         scv = self.fresh('xl_sw')
         def build(fall):
@@ -967,8 +1269,13 @@ class Tr:
     def t_for(self, s, R, env, ctx):
         _, ty, var, ce, body = s
         ck = key(ce, env)
-        if ck not in self.lists: raise Unsupported('loop over unbound container ' + ck)
-        lterm, et = self.lists[ck]
+        if ck not in self.lists and unparen(ce)[0] == 'initlist' and unparen(ce)[1]:
+            items = [self.tx(a, env) for a in unparen(ce)[1]]
+            if len(set(t for _, t in items)) != 1 or items[0][1] not in ('Z', 'bool'):
+                raise Unsupported('loop over a braced list of mixed or non-value types')
+            lterm, et = '[' + '; '.join(t for t, _ in items) + ']', items[0][1]
+        elif ck not in self.lists: raise Unsupported('loop over unbound container ' + ck)
+        else: lterm, et = self.lists[ck]
         names = self.assigned(body, env)
         for n in names:
             if env.vals[n][0] is None: raise Unsupported('loop updates uninitialised ' + n)
@@ -988,7 +1295,8 @@ class Tr:
                    brk=lambda e2: 'XlBreak %s' % P(self.tup(names, e2.leave_scope(eb))), cont=nxt,
                    abort=(lambda e2: 'XlReturn %s' % P(ctx.abort(e2))) if ctx.abort else None)
         bt = self.ts(body, eb, bctx)
-        spat = ('(_ : unit)' if not names else (pat if len(names) == 1 else 'xl_st'))
+        sty = '(%s)%%type' % ' * '.join(P(self.coqtype(env.vals[n][1])) for n in names)
+        spat = ('(_ : unit)' if not names else (pat if len(names) == 1 else '(xl_st : %s)' % sty))
         inner = bt if len(names) <= 1 else 'let %s := xl_st in\n%s' % (pat, bt)
         pat2, e2 = self.rebind(names, env)
         loop = 'xl_for (R:=%s) (fun %s (%s : %s) =>\n%s)\n%s %s' % (self.rtype_of(ctx), spat, var, xt, inner, P(lterm), P(self.tup(names, env)))
@@ -1063,14 +1371,23 @@ def translate(target, src):
             m2 = re.search(target['region'][1], body[m1.end():]) if m1 else None
             if not (m1 and m2): raise Unsupported('region anchors not found')
             if len(re.findall(target['region'][0], body)) != 1: raise Unsupported('region start anchor is not unique')
-            res['line'] = line + body[:m1.start()].count('\n')
-            body = body[m1.start():m1.end() + m2.start()]
+            start = m1.end() if target.get('region_after') else m1.start()     # region_after: the region begins AFTER the start anchor (e.g. a loop header)
+            res['line'] = line + body[:start].count('\n')
+            body = body[start:m1.end() + m2.start()]
             if body.count('{') != body.count('}'): raise Unsupported('region is not a balanced statement sequence')
             outputs = list(target.get('outputs', []))
+        # preprocessor conditionals: accepted only when they enclose nothing but comments / blank lines (then they are dropped)
+        def pp(m):
+            if m.group(1).strip(): raise Unsupported('preprocessor conditional that encloses code')
+            return '\n' * m.group(0).count('\n')
+        body = preprocess(body, target.get('defines', {}), tr.notes)
+        body = re.sub(r'^[ \t]*#[ \t]*if(?:n?def)?\b[^\n]*\n(.*?)^[ \t]*#[ \t]*endif\b[^\n]*$', pp, body, flags=re.S | re.M)
         stmts = Parser(body).body()
         env = Env()
         for cn, (g, t) in target.get('locals', {}).items():
             env.vals[cn] = (g, t, tr.declid())
+        for cn, kk in target.get('aliases', {}).items():      # pointer/opaque locals declared before a region: their canonical key
+            env.alias[cn] = kk
         for g, _ in target['inputs']:
             tr.used.add(g)
         for p in param_names(params_text):
@@ -1078,7 +1395,7 @@ def translate(target, src):
                 g, t = target['params'][p]
                 if t in ('bool', 'Z', 'u64') or t in tr.types: env.vals[p] = (g, t, tr.declid())
                 else: env.alias[p] = g
-            else:
+            elif p not in env.alias:         # (a region may name a parameter in `aliases`)
                 env.alias[p] = None          # unbound parameter: any use as a value is an error
         for pseudo, g, t in state:
             env.vals[pseudo] = (g, t, tr.declid())
@@ -1104,10 +1421,36 @@ def translate(target, src):
         def ret_region(e, e2):
             raise Unsupported('return inside a region')
 
+        # region_exit: the region may be left early by `return;` / `continue;` / `break;` (of the enclosing function / loop);
+        # its result is then (left early?, outputs, state)
+        def region_result(left, e2):
+            vals = [left if isinstance(left, str) else ('true' if left else 'false')]
+            for o in outputs:
+                if o not in e2.vals or e2.vals[o][0] is None: raise Unsupported('region output %s is not set when the region is left' % o)
+                vals.append(e2.vals[o][0])
+            vals += [e2.vals[p][0] for p, _, _ in state]
+            return vals[0] if len(vals) == 1 else '(' + ', '.join(P(v) for v in vals) + ')'
+
+        def ret_exit(e, e2):
+            # exit_code_of = F: every `return F(code, ...)` leaves the region with the (integer) code, falling through yields 0
+            ec = target.get('exit_code_of')
+            if ec:
+                e = unparen(e) if e is not None else None
+                if e is None or e[0] != 'call' or key(e[1], None) != ec or not e[2]: raise Unsupported('return inside the region is not %s(code, ...)' % ec)
+                return region_result(tr.coerce(tr.tx(e[2][0], e2), 'Z'), e2)
+            if e is not None and not target.get('exit_ignore_value'): raise Unsupported('return with a value inside a region')
+            if e is not None: tr.notes.append('the value returned when the region is left early is not part of the translation')
+            return region_result(True, e2)
+
         def abort(e2):
             return ('Some %s' % P(tr.abort_val)) if tr.fuel else tr.abort_val
 
-        term = tr.ts(stmts, env, Ctx(ret_region if target.get('region') else ret, fall, abort=abort, rtype=rcoq, top=True))
+        if target.get('region_exit'):
+            ctx0 = Ctx(ret_exit, lambda e2: region_result('0' if target.get('exit_code_of') else False, e2), brk=lambda e2: region_result(True, e2),
+                       cont=lambda e2: region_result(True, e2), abort=abort, rtype=rcoq, top=True)
+        else:
+            ctx0 = Ctx(ret_region if target.get('region') else ret, fall, abort=abort, rtype=rcoq, top=True)
+        term = tr.ts(stmts, env, ctx0)
         if '\x00' in term: raise Unsupported('internal: unresolved continuation')
         res.update(ok=True, term=term)
     except Unsupported as ex:
@@ -1134,7 +1477,7 @@ def dummy(rcoq):
 
 def csafe(x):
     """text that is safe inside a Coq comment"""
-    return x.replace('*)', '* )').replace('(*', '( *').replace('"', "'")
+    return ' '.join(x.replace('*)', '* )').replace('(*', '( *').replace('"', "'").split())
 
 
 def emit_definition(target, res):
